@@ -61,6 +61,18 @@ def main():
             meta['suite'] = line[-1] if line else r.stdout[-300:]
             meta['suite_regressions'] = [l.strip() for l in r.stdout.splitlines() if 'REGRESSION' in l][:20]
             meta['ran'].append('tools/baseline.sh <changed worktree> -> ' + meta['suite'])
+            # regressions under machine load are usually hypothesis property tests hitting resource limits: re-run each alone
+            still = []
+            for reg in meta['suite_regressions']:
+                tid = reg.replace('REGRESSION', '').strip()
+                mod, _, rest = tid.partition('.TestUnit::')
+                node = mod.replace('.', '/') + '.py::TestUnit::' + rest
+                rr = sh(f'cd {wt} && HYPOTHESIS_STORAGE_DIRECTORY={scratch}/hyp timeout 900 /venv/bin/python -m pytest -q -p no:cacheprovider "{node}"')
+                if rr.returncode != 0:
+                    still.append(tid)
+            meta['suite_regressions_failing_alone'] = still
+            if meta['suite_regressions']:
+                meta['ran'].append(f'each regressed test re-run alone: {len(still)} still failing')
         # our check against the change
         sh(f'rsync -a --exclude .git --exclude evidence/replays --exclude seeded {VERIF}/ {vcopy}/')
         meta['checks'] = {}
@@ -80,7 +92,7 @@ def main():
         sh('git -C /repo worktree prune')
     ok = (meta.get('demo_on_clean_exit') == 0 and meta.get('patch_applies') and meta.get('demo_on_changed_exit') not in (0, None)
           and (a.skip_suite or 'regressions=0' in meta.get('suite', '')
-               or all('test_setdiff2d' in x for x in meta.get('suite_regressions', ['x']))))
+               or (meta.get('suite_regressions') and not meta.get('suite_regressions_failing_alone', ['x']))))
     meta['confirmed'] = bool(ok)
     dst = os.path.join(VERIF, 'seeded', a.name)
     os.makedirs(dst, exist_ok=True)
